@@ -115,7 +115,7 @@ func isGasQuantity(e *Env, v ssa.Value) bool {
 		return true
 	}
 	// a uint64 field of the receiver: a price copied from the schedule
-	if len(e.Fn.Params) > 0 && e.Fn.Signature.Recv() != nil && isUnsignedT(v.Type()) {
+	if bt, ok := v.Type().Underlying().(*types.Basic); len(e.Fn.Params) > 0 && e.Fn.Signature.Recv() != nil && ok && bt.Kind() == types.Uint64 {
 		if strings.HasPrefix(t, "*P:"+e.Fn.Params[0].Name()+".") {
 			return true
 		}
